@@ -61,6 +61,29 @@ func init() {
 	extraRegs = append(extraRegs, func() {
 		bl := "github.com/herumi/bls-go-binary/bls."
 		dk := "(*0chain.net/chaincore/threshold/bls.DKG)."
+		// the configuration store: only Set and GetInt are modelled (integers set by a harness)
+		externals["0chain.net/core/viper.Set"] = func(fr *frame, args []value) value {
+			p := fr.i.p
+			if p.viperVals == nil {
+				p.viperVals = map[string]value{}
+			}
+			if k, ok := args[0].(string); ok {
+				if itf, ok := args[1].(iface); ok {
+					p.viperVals[k] = itf.v
+				}
+			}
+			return nil
+		}
+		externals["0chain.net/core/viper.GetInt"] = func(fr *frame, args []value) value {
+			if k, ok := args[0].(string); ok {
+				if v, ok := fr.i.p.viperVals[k]; ok {
+					if n, ok := v.(int); ok {
+						return n
+					}
+				}
+			}
+			return 0
+		}
 		externals["0chain.net/zzverif/symdkg.Ideal"] = func(fr *frame, args []value) value {
 			p := fr.i.p
 			t := args[0].(int)
